@@ -50,8 +50,10 @@ type Gen struct {
 func NewGen(w *World, seed uint64, profile string) *Gen {
 	g := &Gen{W: w, R: NewRng(seed), Profile: profile, Malformed: 20, seed0: seed}
 	switch profile {
-	case "main", "staking", "did", "auth":
+	case "main", "staking", "auth":
 		g.SimPct = 8
+	case "did":
+		g.SimPct = 18
 	}
 	n := 3 + g.R.Intn(4)
 	for i := 1; i <= n; i++ {
